@@ -10,6 +10,7 @@ import (
 	"slices"
 	"strings"
 
+	"github.com/bronlabs/bron-crypto/pkg/base/algebra"
 	aimpl "github.com/bronlabs/bron-crypto/pkg/base/algebra/impl"
 	"github.com/bronlabs/bron-crypto/pkg/base/curves/curve25519"
 	"github.com/bronlabs/bron-crypto/pkg/base/curves/edwards25519"
@@ -23,6 +24,8 @@ import (
 	"github.com/bronlabs/bron-crypto/pkg/base/curves/pasta"
 	pastaImpl "github.com/bronlabs/bron-crypto/pkg/base/curves/pasta/impl"
 	"github.com/bronlabs/bron-crypto/pkg/base/nt/cardinal"
+	"github.com/bronlabs/bron-crypto/pkg/base/nt/num"
+	"github.com/bronlabs/bron-crypto/pkg/base/utils/algebrautils"
 )
 
 // ---- what the generic code needs of the library's types ---------------------------------
@@ -85,6 +88,9 @@ type group struct {
 	order     func() *big.Int
 	cofactor  func() *big.Int
 	fieldOrd  func() *big.Int
+	// pkg/base/utils/algebrautils: the generic (big-endian) window / bucket algorithms on this group
+	auMul func(p any, k *big.Int) (any, []byte)
+	auMSM func(ks []*big.Int, ps []any) (r any, bes [][]byte, panicked bool)
 }
 
 func hexZ(x *big.Int) string { return x.Text(16) }
@@ -105,7 +111,12 @@ func splitPoint(s string) (string, string, error) {
 	return f[0], f[1], nil
 }
 
-type groupCfg[P ptI[P, F, S], F feI[F], S any] struct {
+type ptC[P algebra.MonoidElement[P], F, S any] interface {
+	ptI[P, F, S]
+	algebra.MonoidElement[P]
+}
+
+type groupCfg[P ptC[P, F, S], F feI[F], S any] struct {
 	name, model string
 	kind        byte
 	prime       bool
@@ -132,7 +143,7 @@ type groupCfg[P ptI[P, F, S], F feI[F], S any] struct {
 	mAffineText func(P) string // 'm' kind: text through AffineX/AffineY of the Montgomery view
 }
 
-func mkGroup[P ptI[P, F, S], F feI[F], S any](c groupCfg[P, F, S]) *group {
+func mkGroup[P ptC[P, F, S], F feI[F], S any](c groupCfg[P, F, S]) *group {
 	g := &group{name: c.name, model: c.model, kind: c.kind, prime: c.prime, fsize: c.fsize, comps: c.comps}
 	g.order = func() *big.Int { return c.order().Big() }
 	g.cofactor = func() *big.Int { return c.cofactor().Big() }
@@ -243,6 +254,34 @@ func mkGroup[P ptI[P, F, S], F feI[F], S any](c groupCfg[P, F, S]) *group {
 	g.lowMul = func(p any, b []byte) any { return c.lowMul(p.(P), b) }
 	if c.baseMul != nil {
 		g.baseMul = func(s any) any { return c.baseMul(s.(S)) }
+	}
+	g.auMul = func(p any, k *big.Int) (any, []byte) {
+		n, err := num.N().FromBig(k)
+		if err != nil {
+			panic(err)
+		}
+		return algebrautils.ScalarMul(p.(P), n), n.BytesBE()
+	}
+	g.auMSM = func(ks []*big.Int, ps []any) (r any, bes [][]byte, panicked bool) {
+		ns := make([]*num.Nat, len(ks))
+		for i, k := range ks {
+			n, err := num.N().FromBig(k)
+			if err != nil {
+				panic(err)
+			}
+			ns[i] = n
+			bes = append(bes, n.BytesBE())
+		}
+		p2 := make([]P, len(ps))
+		for i := range ps {
+			p2[i] = ps[i].(P)
+		}
+		defer func() {
+			if recover() != nil {
+				r, panicked = nil, true
+			}
+		}()
+		return algebrautils.MultiScalarMul(ns, p2), bes, false
 	}
 	if c.msm != nil {
 		g.msm = func(ss []any, ps []any) (any, error) {
